@@ -29,6 +29,9 @@ import (
 	"verif/harness/internal/rng"
 )
 
+// watchdog bounds every Stop / Add of the thread-group sections.
+const watchdog = 5 * time.Second
+
 const tgCfg = "(mk_config 1%nat (0)%Z (0)%Z (0)%Z true)"
 
 func tgCase(trace []string, stopped bool) string {
@@ -51,7 +54,7 @@ func runShutdown(c *Ctx, cases *[]string) {
 	for i := 0; i < c.Scale(30, 300) && !giveUp("threadgroup-stress") && failedRuns["threadgroup"] == 0; i++ {
 		tgStress(c, c.R.U64())
 	}
-	if failedRuns["threadgroup"] == 0 {
+	if failedRuns["threadgroup"] == 0 && !hungRun {
 		tgRace(c, c.R.U64())
 	}
 	for i := 0; i < c.Scale(16, 64) && !giveUp("rhp4-shutdown"); i++ {
@@ -81,8 +84,9 @@ func tgScripted(c *Ctx, seed uint64, cases *[]string) {
 		for _, ch := range stopRet {
 			select {
 			case <-ch:
-			case <-time.After(settleTimeout):
-				fails = append(fails, failure{"threadgroup-stop-deadlock", fmt.Sprintf("Stop did not return within %v although every thread had called done", settleTimeout)})
+			case <-time.After(watchdog):
+				fails = append(fails, failure{"threadgroup-stop-deadlock", fmt.Sprintf("Stop did not return within %v although every thread had called done\n%s", watchdog, strings.Join(goroutinesWith("coreutils/threadgroup."), "\n\n"))})
+				hungRun = true
 				return
 			}
 		}
@@ -98,14 +102,36 @@ func tgScripted(c *Ctx, seed uint64, cases *[]string) {
 			useCtx := r.Intn(3) == 0
 			var done func()
 			var err error
-			if useCtx {
-				var ctx context.Context
-				ctx, done, err = tg.AddContext(context.Background())
-				if err == nil {
-					ctxs = append(ctxs, ctx)
+			// Add runs under a watchdog: while Stop is draining, an Add -- also one made by a thread
+			// that is already a member (the syncer's connection goroutines do that through
+			// allowConnect) -- must come back with ErrClosed at once, not wait for Stop
+			type addRes struct {
+				ctx  context.Context
+				done func()
+				err  error
+			}
+			ch := make(chan addRes, 1)
+			go func() {
+				var a addRes
+				if useCtx {
+					a.ctx, a.done, a.err = tg.AddContext(context.Background())
+				} else {
+					a.done, a.err = tg.Add()
 				}
-			} else {
-				done, err = tg.Add()
+				ch <- a
+			}()
+			select {
+			case a := <-ch:
+				done, err = a.done, a.err
+				if useCtx && err == nil {
+					ctxs = append(ctxs, a.ctx)
+				}
+			case <-time.After(watchdog):
+				steps = append(steps, fmt.Sprintf("Add with %d members still in the group, Stop called: %v", len(held), stopCalled))
+				fails = append(fails, failure{"threadgroup-stop-deadlock", fmt.Sprintf("Add (Stop called: %v, %d members have not called done) did not return within %v: a member that calls Add while Stop drains blocks, and Stop waits for that member\n%s", stopCalled, len(held), watchdog, strings.Join(goroutinesWith("coreutils/threadgroup."), "\n\n"))})
+				hungRun = true
+				report(c, "threadgroup", seed, bedConfig{}, 0, steps, fails)
+				return
 			}
 			ok := err == nil
 			steps = append(steps, fmt.Sprintf("Add -> %v", err))
